@@ -119,8 +119,12 @@ uint64_t cop_serialized_size(const NanoValue *val) {
     return size;
 }
 
-uint32_t cop_deserialize_value(const uint8_t *buf, uint32_t buf_size,
-                               NanoValue *out, VmHeap *heap) {
+/* The bytes come from another process: array nesting is bounded so that a
+ * damaged or hostile message cannot exhaust the stack of the reader. */
+#define COP_MAX_NESTING 64
+
+static uint32_t deserialize_value(const uint8_t *buf, uint32_t buf_size,
+                                  NanoValue *out, VmHeap *heap, int depth) {
     if (buf_size < 1) return 0;
     uint8_t tag = buf[0];
     uint32_t pos = 1;
@@ -172,6 +176,7 @@ uint32_t cop_deserialize_value(const uint8_t *buf, uint32_t buf_size,
         break;
     }
     case TAG_ARRAY: {
+        if (depth >= COP_MAX_NESTING) return 0;
         if (pos + 5 > buf_size) return 0;
         uint8_t etype = buf[pos++];
         uint32_t count;
@@ -185,8 +190,8 @@ uint32_t cop_deserialize_value(const uint8_t *buf, uint32_t buf_size,
         if (!arr) return 0;
         for (uint32_t i = 0; i < count; i++) {
             NanoValue elem;
-            uint32_t n = cop_deserialize_value(buf + pos, buf_size - pos,
-                                                &elem, heap);
+            uint32_t n = deserialize_value(buf + pos, buf_size - pos,
+                                           &elem, heap, depth + 1);
             if (n == 0) { *out = val_void(); return 0; }
             pos += n;
             vm_array_push(arr, elem);
@@ -201,6 +206,11 @@ uint32_t cop_deserialize_value(const uint8_t *buf, uint32_t buf_size,
     }
 
     return pos;
+}
+
+uint32_t cop_deserialize_value(const uint8_t *buf, uint32_t buf_size,
+                               NanoValue *out, VmHeap *heap) {
+    return deserialize_value(buf, buf_size, out, heap, 0);
 }
 
 /* ========================================================================
